@@ -241,3 +241,170 @@ contract(SD + 'TileWalker._walk', props=['C11', 'C12'],
                         types={'all_subtiles': 'bool', 'sub_bbox': 'opt[tuple[real,real,real,real]]', 'handle_tiles': 'opaque'},
                         body_trace=[_walk_item], raise_trace=[_interrupted_progress])},
          trace=[_walk_prologue])
+
+
+# ---- TileWalker._filter_subtiles: one answer per sub tile, in order; a sub tile is dropped only if the task does not intersect it ----
+def _filter_one(ex, st, k):
+    import z3
+    from pyvc.values import eq, VSeq, VNone
+    evs_ = st.trace[getattr(st, 'iter_start_trace', 0):]
+    pre = st.iter_start_state
+    sub = st.env['subtiles'].elem(k)
+    y0, y1 = pre.yielded, st.yielded
+    out = y1.elem(y0.length())
+    mt = [e for e in evs_ if e.name == 'meta_tile']
+    it = [e for e in evs_ if e.name == 'intersects']
+    alls = ex.truth(st, st.env['all_subtiles'])
+    isnone = sub.isnone if hasattr(sub, 'isnone') else z3.BoolVal(isinstance(sub, VNone))
+    g = y1.length() == y0.length() + 1
+    dropped = z3.And(out.items[0].isnone, out.items[1].isnone, out.items[2].isnone)
+    if not mt:
+        g = z3.And(g, isnone, dropped, z3.BoolVal(not it))
+    else:
+        s_in = sub.val if hasattr(sub, 'isnone') else sub
+        ok = len(mt) == 1 and len(it) <= 1
+        g = z3.And(g, z3.Not(isnone), z3.BoolVal(bool(ok)), eq(mt[0].args[-1], s_in))
+        bbox = ex.opaque_field_at(st, mt[0], mt[0].result, 'bbox') if ok else None
+        if ok and it:
+            code = it[0].result.t
+            kept = z3.And(z3.Not(out.items[0].isnone), eq(out.items[0].val, s_in), z3.Not(out.items[1].isnone), eq(out.items[1].val, bbox),
+                          z3.Not(out.items[2].isnone), out.items[2].val.t == code)
+            g = z3.And(g, z3.Not(alls), eq(it[0].args[-1], bbox), z3.If(code != 0, kept, dropped))
+        elif ok:
+            # all_subtiles: no geometry test, the sub tile is kept as CONTAINS (-1)
+            kept = z3.And(z3.Not(out.items[0].isnone), eq(out.items[0].val, s_in), z3.Not(out.items[1].isnone), eq(out.items[1].val, bbox),
+                          z3.Not(out.items[2].isnone), out.items[2].val.t == -1)
+            g = z3.And(g, alls, kept)
+    yield ('subtile_kept_iff_it_intersects_the_task', g,
+           'exactly one answer per sub tile, in order: (None, None, None) for a sub tile outside the grid or one whose meta-tile '
+           'bbox the task does not intersect (intersects() == NONE == 0); otherwise (subtile, its meta-tile bbox, the intersection '
+           'code) - without geometry test, as CONTAINS, when all_subtiles is set')
+
+
+contract(SD + 'TileWalker._filter_subtiles', props=['C11', 'C12'],
+         types=dict(subtiles='list[opt[tuple[int,int,int]]]', all_subtiles='bool'),
+         returns='list[tuple[opt[tuple[int,int,int]],opt[opaque],opt[int]]]', default_callee='opaque',
+         opaque_fields={'bbox': 'opaque'}, stable_fields=['bbox'],
+         opaque_spec={'meta_tile': {'pure': True}, 'intersects': {'returns': 'int', 'pure': True}},
+         ensures=['len(result) == len(subtiles)'],
+         loops={0: dict(yield_type='tuple[opt[tuple[int,int,int]],opt[opaque],opt[int]]', inv=['len(yielded) == _k'],
+                        body_trace=[_filter_one])})
+
+
+# ---- SeedTask / CleanupTask.intersects: the three-valued answer the walker relies on -----------------------------------------------
+def _task_intersection(ex, st, post, result):
+    import z3
+    from pyvc.values import eq
+    h = st.heap[post.env['self'].ref]
+    cov, grid = h['coverage'], h['grid']
+    bbox = post.env['bbox']
+    ct = [e for i, e in T.evs(st, 'contains')]
+    it = [e for i, e in T.evs(st, 'intersects')]
+    ok = len(ct) == 1 and ct[0].recv is not None and ct[0].recv.t.eq(cov.t) and len(ct[0].args) == 2 and ct[0].args[0] is bbox
+    g = z3.BoolVal(bool(ok))
+    if ok:
+        srs = ex.opaque_field_at(st, ct[0], grid, 'srs')
+        g = z3.And(g, eq(ct[0].args[1], srs))
+        inside = ex.truth(st, ct[0].result)
+        if it:
+            ok2 = len(it) == 1 and it[0].recv.t.eq(cov.t) and len(it[0].args) == 2 and it[0].args[0] is bbox
+            g = z3.And(g, z3.BoolVal(bool(ok2)), eq(it[0].args[1], srs) if ok2 else z3.BoolVal(False), z3.Not(inside),
+                       result.t == z3.If(ex.truth(st, it[0].result), z3.IntVal(1), z3.IntVal(0)))
+        else:
+            g = z3.And(g, inside, result.t == -1)
+    yield ('contains_intersects_none', g,
+           'CONTAINS (-1) iff the task coverage contains the bbox, else INTERSECTS (1) iff it intersects it, else NONE (0); both '
+           'tests are made with the bbox that was passed and the SRS of the task grid')
+
+
+for _cls in ('SeedTask', 'CleanupTask'):
+    cls(SD + _cls, fields=dict(coverage='opaque', grid='opaque'))
+    contract(SD + _cls + '.intersects', props=['C11', 'C12'],
+             types=dict(bbox='opaque'), returns='int', default_callee='opaque',
+             opaque_fields={'srs': 'opaque'}, stable_fields=['srs'],
+             opaque_spec={'contains': {'returns': 'bool', 'pure': True}, 'intersects': {'returns': 'bool', 'pure': True}},
+             trace=[_task_intersection])
+
+
+# ---- TileWalker.walk: the traversal starts at the extent of the task coverage, with all levels of the task ---------------------------
+def _walk_entry(ex, st, post, result):
+    import z3
+    from pyvc.values import eq
+    h = st.heap[post.env['self'].ref]
+    w = [e for i, e in T.evs(st, '_walk', 'TileWalker._walk')]
+    ap = [e for i, e in T.evs(st, 'already_processed', 'SeedProgress.already_processed')]
+    bf = [e for i, e in T.evs(st, 'bbox_for')]
+    ok = len(ap) == 1 and len(bf) == 1 and len(w) <= 1
+    g = z3.BoolVal(bool(ok))
+    if ok:
+        done = ex.truth(st, ap[0].result)
+        g = z3.And(g, done == z3.BoolVal(not w))
+        for e in w:
+            a = [x for x in e.args if getattr(x, 'ref', None) != post.env['self'].ref]
+            okw = len(a) == 2 and a[0] is bf[0].result
+            g = z3.And(g, z3.BoolVal(bool(okw)))
+            if okw:
+                g = z3.And(g, eq(a[1], ex.opaque_field_at(st, e, h['task'], 'levels')),
+                           eq(bf[0].args[-1], ex.opaque_field_at(st, bf[0], ex.opaque_field_at(st, bf[0], h['tile_mgr'], 'grid'), 'srs')))
+    yield ('walk_covers_the_task_extent_and_levels', g,
+           'unless the saved progress says the task is complete, the walk starts once at bbox_for(grid srs) of the extent of the '
+           'task coverage, with the full level list of the task and all_subtiles False; an interruption (StopProcess) ends it quietly')
+
+
+contract(SD + 'TileWalker.walk', props=['C11'],
+         types={}, returns='none', default_callee='opaque',
+         opaque_fields={'levels': 'opaque', 'grid': 'opaque', 'srs': 'opaque', 'coverage': 'opaque', 'extent': 'opaque'},
+         stable_fields=['levels', 'grid', 'srs', 'coverage', 'extent'],
+         opaque_spec={'_walk': {'raises': ['StopProcess']}, 'already_processed': {'returns': 'bool', 'pure': True}, 'bbox_for': {'pure': True},
+                      'step_forward': {}, 'report_progress': {}},
+         opaque=['_walk', 'already_processed', 'step_forward', 'report_progress'],
+         requires=['self.handle_stale or self.handle_uncached'],
+         trace=[_walk_entry])
+
+
+# ---- seed_task: what is (re)created is decided by the task: refresh threshold, refresh_all, skip_uncached -----------------------------
+def _seed_task_setup(ex, st, post, result):
+    import z3
+    from pyvc.values import eq
+    task = post.env['task']
+    tw = [e for i, e in T.evs(st, 'TileWalker')]
+    wk = [e for i, e in T.evs(st, 'walk')]
+    stp = [e for i, e in T.evs(st, 'stop')]
+    if not tw:
+        from pyvc.values import ObjSort
+        cov = ex.opaque_field(st, task, 'coverage')
+        yield ('task_skipped_only_with_empty_coverage', z3.Function('opaque_is_false', ObjSort, z3.BoolSort())(cov.t),
+               'a task is skipped only when its coverage is literally False')
+        return
+    kw = tw[0].kwargs
+    skip = ex.truth(st, post.env['skip_uncached'])
+    ok = all(k in kw for k in ('handle_uncached', 'handle_stale', 'handle_all', 'skip_geoms_for_last_levels', 'seed_progress', 'work_on_metatiles')) \
+        and tw[0].args[0] is task and len(wk) == 1 and wk[0].recv is not None and wk[0].recv.t.eq(tw[0].result.t)
+    g = z3.BoolVal(bool(ok))
+    if ok:
+        g = z3.And(g, ex.truth(st, kw['handle_uncached']) == z3.Not(skip), ex.truth(st, kw['handle_stale']) == skip,
+                   eq(kw['handle_all'], ex.opaque_field_at(st, tw[0], task, 'refresh_all')),
+                   z3.BoolVal(kw['skip_geoms_for_last_levels'] is post.env['skip_geoms_for_last_levels'] and kw['seed_progress'] is post.env['seed_progress']))
+    yield ('walker_handles_what_the_task_asks_for', g,
+           'uncached tiles are created unless skip_uncached, stale ones refreshed only with skip_uncached, everything with '
+           'refresh_all; the walker gets the saved progress and the configured skip_geoms_for_last_levels; walk() is called once')
+    sets = [e for e in st.trace if e.name == 'setattr:_expire_timestamp']
+    rt = ex.opaque_field(st, task, 'refresh_timestamp')
+    g2 = z3.Not(rt.isnone) == z3.BoolVal(len(sets) == 1)
+    for e in sets:
+        tm = ex.opaque_field_at(st, e, task, 'tile_manager')
+        g2 = z3.And(g2, z3.BoolVal(e.recv is not None and e.recv.t.eq(tm.t)), eq(e.args[1], rt.val))
+    yield ('refresh_threshold_of_the_task_reaches_the_tile_manager', g2,
+           'a task with a refresh timestamp sets exactly that value as the expire timestamp of its tile manager (C13), before walking')
+    yield ('worker_pool_always_stopped', z3.BoolVal(len(stp) >= 1), 'the worker pool is stopped on every way out')
+
+
+contract(SD + 'seed_task', props=['C11'],
+         types=dict(task='opaque', concurrency='opaque', dry_run='opaque', skip_geoms_for_last_levels='opaque', progress_logger='opaque',
+                    seed_progress='opaque', skip_uncached='bool'), returns='none', default_callee='opaque',
+         opaque_fields={'coverage': 'opaque', 'refresh_timestamp': 'opt[real]', 'tile_manager': 'opaque', 'refresh_all': 'opaque',
+                        'rescale_tiles': 'opaque'},
+         stable_fields=['coverage', 'refresh_timestamp', 'tile_manager', 'refresh_all', 'rescale_tiles'],
+         opaque_spec={'TileWorkerPool': {'pure': True}, 'TileWalker': {'pure': True}, 'walk': {'raises': ['KeyboardInterrupt']}, 'stop': {}},
+         raises={'KeyboardInterrupt': True},
+         trace=[_seed_task_setup])
